@@ -2,6 +2,6 @@ SPECIFICATION Spec
 CONSTANTS
   Narrow8 = FALSE
   AnyEchoSrc = FALSE
-INVARIANTS Report Drift
+INVARIANTS Report Drift DriftS01
 POSTCONDITION TraceAccepted
 CHECK_DEADLOCK FALSE
